@@ -107,16 +107,6 @@ KANI_UNITS = {
         ],
         "module": "kani_skip_shapes",
     },
-    "display": {
-        "crate": "minicbor",
-        "src": "units/kani/minicbor/display.rs",
-        "inject": [
-            {"copy": ("units/kani/minicbor/display.rs", "minicbor/src/kani_display.rs")},
-            {"append": ("minicbor/src/lib.rs", "#[cfg(all(kani, feature = \"alloc\", feature = \"half\"))] mod kani_display;")},
-            {"replace_line": ("minicbor/src/lib.rs", r"^#!\[cfg_attr\(not\(kani\), forbid\(unused_variables\)\)\]", "#![cfg_attr(not(kani), forbid(unused_variables))]\n#![cfg_attr(kani, feature(formatting_options))]")},
-        ],
-        "module": "kani_display",
-    },
     "error_class": {
         "crate": "minicbor",
         "src": "units/kani/minicbor/error_class.rs",
